@@ -858,6 +858,8 @@ class PythonMPContext(object):
         if isinstance(x, rational.mpq):
             p, q = x._mpq_
             return p % q == 0
+        if isinstance(x, numbers.Rational): # e.g. Fraction: exactly
+            return x.denominator == 1
         x = ctx.convert(x)
         if hasattr(x, '_mpf_') or hasattr(x, '_mpc_'):
             return ctx.isint(x, gaussian)
